@@ -20,6 +20,11 @@ FAULTS = ("deliver", "drop", "corrupt", "duplicate", "stall")
 LAT = 0.01
 HOST_PAY = [bytes([0xA0 + k, 0x11, k]) for k in range(8)]
 NCP_PAY = [bytes([0xB0 + k, 0x22, k]) for k in range(8)]
+LONG = (129, 200, 130, 150)  # payload lengths of the long-payload runs (the data field may exceed 128 bytes)
+
+
+def long_payloads(base):
+    return [bytes([base + k]) + bytes((7 * i + k) & 0xFF for i in range(LONG[k % len(LONG)] - 1)) for k in range(4)]
 
 
 class Up:
@@ -90,10 +95,10 @@ def subsequence_in_order(got, submitted):
     pos = -1
     for g in got:
         if g not in submitted:
-            return "payload %s was never submitted" % g.hex()
+            return "a payload of %d bytes (%s...) was never submitted" % (len(g), g.hex()[:16])
         i = submitted.index(g)
         if i <= pos:
-            return "payload %s delivered %s" % (g.hex(), "twice" if got.count(g) > 1 else "out of order")
+            return "payload %s... delivered %s" % (g.hex()[:16], "twice" if got.count(g) > 1 else "out of order")
         pos = i
     return None
 
@@ -112,8 +117,9 @@ class Link(Harness):
             mr.append("wrapped")
         return mr
 
-    def run(self, ctx, mh=2, mn=1, F=3, windows=(1, 2), starts=((0, 0), (6, 7)), faults=FAULTS, cancel=False, ncp_start=(0.0,), dirs="hn"):
+    def run(self, ctx, mh=2, mn=1, F=3, windows=(1, 2), starts=((0, 0), (6, 7)), faults=FAULTS, cancel=False, ncp_start=(0.0,), dirs="hn", long=False):
         ash = real_ash()
+        HOST_PAY, NCP_PAY = (long_payloads(0xA0), long_payloads(0xB0)) if long else (globals()["HOST_PAY"], globals()["NCP_PAY"])
         W = windows[ctx.choice("window", len(windows))]
         a, b = starts[ctx.choice("start", len(starts))]
         t_ncp = ncp_start[ctx.choice("ncp_start", len(ncp_start))]
@@ -173,9 +179,9 @@ class Link(Harness):
             h_sub = HOST_PAY[:mh]
             n_sub = list(ncp.submitted)
             bad = subsequence_in_order(ncp.delivered, h_sub)
-            ctx.check(bad is None, "NCP upper layer: %s (got %r)" % (bad, [d.hex() for d in ncp.delivered]), "ncp-up-order")
+            ctx.check(bad is None, "NCP upper layer: %s (got %r)" % (bad, [d.hex()[:12] for d in ncp.delivered]), "ncp-up-order")
             bad = subsequence_in_order(up.data, n_sub)
-            ctx.check(bad is None, "host upper layer: %s (got %r)" % (bad, [d.hex() for d in up.data]), "host-up-order")
+            ctx.check(bad is None, "host upper layer: %s (got %r)" % (bad, [d.hex()[:12] for d in up.data]), "host-up-order")
             for k in range(mh):
                 o = outcomes.get(k)
                 ctx.check(o is not None, "send %d has no outcome" % k, "no-outcome")
@@ -188,7 +194,7 @@ class Link(Harness):
                         ctx.label("host-send-failed")
             for p in ncp.acked:
                 n = up.data.count(p)
-                ctx.check(n == 1, "the NCP saw payload %s acknowledged, the host's upper layer received it %d times" % (p.hex(), n),
+                ctx.check(n == 1, "the NCP saw payload %s acknowledged, the host's upper layer received it %d times" % (p.hex()[:16], n),
                           "acked-not-delivered" if n == 0 else "acked-duplicated")
             if cancel:
                 ctx.label("cancelled")
@@ -211,7 +217,7 @@ class Link(Harness):
                 ctx.label("ncp-retransmitted")
             if (a, b) != (0, 0):
                 ctx.label("wrapped")
-            ctx.observe(W, (a, b), [(e[1], e[2], e[3]) for e in line.log if e[3] != "deliver"], outcomes, [d.hex() for d in ncp.delivered], [d.hex() for d in up.data])
+            ctx.observe(W, (a, b), [(e[1], e[2], e[3]) for e in line.log if e[3] != "deliver"], outcomes, [d.hex()[:12] for d in ncp.delivered], [d.hex()[:12] for d in up.data])
 
         vloop.run(main)
 
@@ -243,6 +249,7 @@ def main(tier):
         c.run("checks.c01:LINK", {"mh": 1, "mn": 2, "F": 3, "windows": [2], "starts": [[0, 0]], "faults": ["deliver", "drop", "corrupt"]})
         c.run("checks.c01:LINK", {"mh": 3, "mn": 1, "F": 2, "windows": [1], "starts": [[7, 6]], "cancel": True})
         c.run("checks.c01:LINK", {"mh": 2, "mn": 0, "F": 6, "windows": [1], "starts": [[7, 0]], "faults": ["deliver", "drop", "corrupt"], "dirs": "h"})
+        c.run("checks.c01:LINK", {"mh": 2, "mn": 2, "F": 2, "windows": [2], "starts": [[0, 0]], "faults": ["deliver", "drop", "corrupt"], "long": True})
         c.out_of_bounds += ["fault sequences longer than 3 frames per direction, 6 in the single-direction run (later frames are delivered; no random continuation)", "more than 3 host / 2 NCP payloads",
                             "window 3 and other start numbers (thorough)", "NCP behaviours that are not specification-conforming"]
     else:
@@ -252,6 +259,7 @@ def main(tier):
         c.run("checks.c01:LINK", {"mh": 2, "mn": 1, "F": 3, "windows": [2], "starts": [[3, 4]], "ncp_start": [0.0, 0.015, 1.62]})
         c.run("checks.c01:LINK", {"mh": 2, "mn": 0, "F": 7, "windows": [1], "starts": [[7, 0]], "faults": ["deliver", "drop", "corrupt", "duplicate"], "dirs": "h"})
         c.run("checks.c01:LINK", {"mh": 1, "mn": 1, "F": 6, "windows": [2], "starts": [[0, 7]], "faults": ["deliver", "drop", "corrupt"], "dirs": "n"})
+        c.run("checks.c01:LINK", {"mh": 3, "mn": 3, "F": 3, "windows": [1, 3], "starts": [[6, 7]], "faults": ["deliver", "drop", "corrupt", "duplicate"], "long": True})
         c.out_of_bounds += ["fault sequences longer than 4 frames per direction", "more than 3 host / 3 NCP payloads"]
     return c.finish()
 
